@@ -184,9 +184,14 @@ def c04_floor(term, out):
         out.stats.inc("verdicts_with_nonzero_floor")
     out.outcomes.add(("verdict", sev, fl))
     if RANK[sev] < fl:
-        cause = why[-1].split(" (")[0] if why else "?"
         kind = _c04_kind(why, fl)
-        out.violate(PROP, f"C04|{sev}<{NAME[fl]}|{kind}|{last_call_op(term)}",
+        sig = f"C04|{sev}<{NAME[fl]}|{kind}|{last_call_op(term)}"
+        if kind.startswith("call-builtin-"):
+            # a builtin whose name was also imported from a (benign) standard-library module earlier
+            name = kind[len("call-builtin-"):]
+            if any(ev[0] == "import" and ev[2] == name and ev[1] not in BUILTIN_FAMILY for ev in vm.world.log):
+                sig = f"C04|call-builtin-shadowed-by-stdlib-import|{name}"
+        out.violate(PROP, sig,
                     f"verdict {sev} below floor {NAME[fl]}: {'; '.join(sorted(set(why)))}; decompiled "
                     f"{_short(term.src[1], 240)}", term.replay(), len(term.seq))
 
